@@ -80,7 +80,7 @@ PROPS.update({
         rule=COMPOSE_RULE + "at least 3 distinct listener kinds fired and at least one of {abort, exhaustion, rejection, cache hit, fallback, timeout, nested retries}. Every listener of every builder and of the executor is registered into one recorder. TestEventsConcurrent: 2..12 executions with different scripts share one executor and its listeners; each execution's events (attributed through the context) must equal the model's prediction for its own script. TestEventsWhenWaitsAreCancelled: an execution waiting an hour for a bulkhead permit, a limiter permit or a retry delay is cancelled; rejection / retry / exhaustion listeners must stay silent. TestHedgedRetryEvents: Hedge(Retry(fn)) with a hedge that only accepts successes, so 2..4 branches of one execution share the retry policy's executor; every invocation parks and the harness lets them return one at a time in a generated order or all at once; OnRetriesExceeded at most once (exactly once with ExceededError), invocations = 1 + OnHedge + OnRetry, OnRetry <= OnRetryScheduled, one completion event; non-trivial when at least two branches were parked together and a retry was decided or the retries were exceeded.",
         assumptions=COMPOSE_ASSUMPTIONS + ["a result that reaches a retry policy after the same execution has already exhausted it (nested retries, a hedge outside) passes through unclassified: the executor's OnSuccess/OnFailure verdict is not judged against the error for such executions"]),
     "C17": dict(pkg="./props/c17_stats", tests=[REGRESS(), T("TestStats", (8, 6000), (16, 120000)), T("TestHedgedStats", (4, 1000), (8, 15000), pkg="./props/c09_hedge"), T("TestHedgedRetryStats", (2, 1500), (4, 20000), pkg="./props/c09_hedge"), T("TestAttemptViewStable", (2, 400), (4, 6000)), T("TestScheduledEventUnderTimeout", (2, 300), (4, 5000)), T("TestHedgedRetryEvents", (2, 400), (4, 6000), pkg="./props/c16_events")],
-        rule=COMPOSE_RULE + "(every listener payload is kept and read again when the execution is over: LastResult, LastError -- unless the context ended meanwhile -- StartTime and AttemptStartTime still say what they said on delivery; the counters are shared between copies by design and are not compared) (TestScheduledEventUnderTimeout: Timeout(Retry(fn)) where the Timeout fires while the retry policy computes the delay after attempt k: OnFailure and OnRetryScheduled for attempt k still report attempt k's result and error) (TestHedgedRetryEvents, from the C16 harness: ElapsedAttemptTime of a parked attempt never goes backwards while other branches retry) at least one retry happened and at least one attempt was rejected before reaching the function (breaker, bulkhead or rate limiter). Observation points: function entry, every listener, fallback functions, completion events. Hedged executions (TestHedgedStats, from the C09 harness) count as non-trivial when at least two attempts overlapped.",
+        rule=COMPOSE_RULE + "(every listener payload is kept and read again when the execution is over: LastResult, LastError -- unless the context ended meanwhile -- StartTime and AttemptStartTime still say what they said on delivery; the counters are shared between copies by design and are not compared) (OnRetry for attempt k and the function entered for attempt k read the same AttemptStartTime) (TestScheduledEventUnderTimeout: Timeout(Retry(fn)) where the Timeout fires while the retry policy computes the delay after attempt k: OnFailure and OnRetryScheduled for attempt k still report attempt k's result and error) (TestHedgedRetryEvents, from the C16 harness: ElapsedAttemptTime of a parked attempt never goes backwards while other branches retry) at least one retry happened and at least one attempt was rejected before reaching the function (breaker, bulkhead or rate limiter). Observation points: function entry, every listener, fallback functions, completion events. Hedged executions (TestHedgedStats, from the C09 harness) count as non-trivial when at least two attempts overlapped.",
         assumptions=COMPOSE_ASSUMPTIONS + ["LastResult/LastError are not compared at observation points where the execution's context is already done (LastError then reports the context error by design)"]),
 })
 
@@ -123,7 +123,7 @@ PROPS["C09"] = dict(
     tests=[REGRESS(), T("TestHedge", (8, 1200), (16, 20000)), T("TestHedgeRounds", (4, 400), (8, 6000)), T("TestHedgeInnerTimeout", (2, 300), (4, 5000)), T("TestClassifyDeepEqual", (2, 3000), (4, 50000), pkg="./props/c12_classify", env={"VERIF_DEEP_CARRIER": "hedge"})],
     replay_reps=300,
     require_classes=["final-path=true", "overlapped=true"],
-    rule="(TestHedgeInnerTimeout: Hedge(Timeout(fn)) where the first attempt runs into its own Timeout -- a result the cancel condition rejects, recorded on the execution the attempts share --, the second attempt then wins and a third is still running: it must have been cancelled at the return; judged only when the schedule was met) (TestClassifyDeepEqual, from the C12 harness: CancelOnResult with values for which deep equality and identity differ -- pointers, slices, maps, structs holding pointers -- a separately built equal outcome is delivered without a hedge, an unequal one lets the hedge run) one scenario in four goes on using the builder (more hedges, another listener) after the policy under test was built; placements include a Timeout between the hedge policy and the function; rapid-generated hedged executions: maxHedges 0..4, a generated delay per hedge from {0, 0.2, 1, 3, 5 ms, 1 h}, cancel conditions {default, CancelOnResult, CancelOnErrors, CancelIf}, an outcome per attempt (assigned by order of entry), placements {alone, inside retry, inside a never-firing timeout, inside a fallback}, sync/async; gated mode: every attempt parks on a harness channel and is released in a generated permutation (exact step oracle); auto mode: attempts last a generated 0..8 ms or until cancelled and race with the hedge timers (race-agnostic log oracle); non-trivial = at least 2 attempts overlapped and (the winner was not the first attempt or the all-finished path delivered the result); distinct = the scenario",
+    rule="(cancel predicate variants: attempts with acceptable results leaving it together; 300 us to reject a result) (TestHedgeInnerTimeout: Hedge(Timeout(fn)) where the first attempt runs into its own Timeout -- a result the cancel condition rejects, recorded on the execution the attempts share --, the second attempt then wins and a third is still running: it must have been cancelled at the return; judged only when the schedule was met) (TestClassifyDeepEqual, from the C12 harness: CancelOnResult with values for which deep equality and identity differ -- pointers, slices, maps, structs holding pointers -- a separately built equal outcome is delivered without a hedge, an unequal one lets the hedge run) one scenario in four goes on using the builder (more hedges, another listener) after the policy under test was built; placements include a Timeout between the hedge policy and the function; rapid-generated hedged executions: maxHedges 0..4, a generated delay per hedge from {0, 0.2, 1, 3, 5 ms, 1 h}, cancel conditions {default, CancelOnResult, CancelOnErrors, CancelIf}, an outcome per attempt (assigned by order of entry), placements {alone, inside retry, inside a never-firing timeout, inside a fallback}, sync/async; gated mode: every attempt parks on a harness channel and is released in a generated permutation (exact step oracle); auto mode: attempts last a generated 0..8 ms or until cancelled and race with the hedge timers (race-agnostic log oracle); non-trivial = at least 2 attempts overlapped and (the winner was not the first attempt or the all-finished path delivered the result); distinct = the scenario",
     assumptions=["attempts are identified by order of entry; spacing is a lower bound on order statistics of the entries and on the OnHedge calls",
                  "a cancel-matching result that loses the hand-off to the final result of the last attempt is accepted when all attempts have finished (DESIGN.md L8)",
                  "timing assertions are lower bounds only; 'does not return' is observed for 0.3 ms, 'returns' is awaited for 30 s"],
